@@ -94,6 +94,11 @@ def run(ctx, scale=1):
     cases = []
     for part in core.pmap(work, core.chunks(ctx, total, per=62)):
         cases.extend(part)
+    Gc = Gen(random.Random(ctx.seed + 17))
+    for _ in range(ctx.n(2, 6)):
+        for A, B, cls in Gc.collinear_catalogue():
+            cases.append((A, B, cls, interlib.observe(impl, A, B), interlib.observe(impl, B, A),
+                          interlib.observe(impl, A, B, method=True) if A[0] != 'P' else None))
     outs = core.model_lines(['inter %s %s' % (tok(A), tok(B)) for A, B, *_ in cases])
     for (A, B, cls, o1, o2, o3), ml in zip(cases, outs):
         ctx.dist['pair %s-%s' % (A[0], B[0])] += 1
